@@ -5,6 +5,8 @@
 -/
 import WD.Proofs.Pipeline.Theorems
 import WD.Proofs.Pipeline.FlatSpec
+import WD.Proofs.Pipeline.BurstFiles
+import WD.Proofs.Pipeline.BurstFlat
 /-
   `_partial`: all initial trees, all histories of valid operations, recursive watch, in the regime "the stream
   drains after every operation"; library threads other than the inotify reader (their interplay is C04–C06, C12)
@@ -55,6 +57,38 @@ theorem still_reporting_partial (fs0 : FS) (hwf : fs0.WF) (full : Bool) (ops mor
 theorem root_deleted (fs : FS) (full recursive : Bool) :
     contract fs recursive full (.rmdir ["W"]) = ([⟨.DirDeletedEvent, ["W"], [], false⟩], true) := by
   simp [contract, mkEv]
+
+/-- back to back: a burst of file operations read as one batch does not kill the reader either (recursive watch), … -/
+theorem no_crash_file_burst_partial (fs0 : FS) (hwf : fs0.WF) (full : Bool) (pre burst : List Op)
+    (hv : allValid (Sys.start fs0 true full) pre = true) (hroot : Op.rmdir ["W"] ∉ pre)
+    (hb : allFile ((Sys.start fs0 true full).run pre).1 burst = true) :
+    (((Sys.start fs0 true full).run pre).1.burst burst).1.crashed = false ∧
+    (((Sys.start fs0 true full).run pre).1.burst burst).1.stopped = false := by
+  obtain ⟨inv, hs, hc, _, _⟩ := start_rec fs0 hwf full
+  have hr := run_rec _ pre inv hs hc hv
+  have hst : ((Sys.start fs0 true full).run pre).1.stopped = false := by
+    cases h : ((Sys.start fs0 true full).run pre).1.stopped
+    · rfl
+    · exact absurd ((stopped_iff _ pre inv hs hc hv).1 h) hroot
+  obtain ⟨fsN, kN, recs, libN, levs, _, hrun, _⟩ := kernelOps_files burst _ (hr.2.2 hst) hst hr.2.1 hb
+  rw [burst_files _ burst (hr.2.2 hst) hst hr.2.1 hb, hrun]
+  exact ⟨hr.2.1, hst⟩
+
+/-- … and under a non-recursive watch no burst of valid operations whatsoever does (root not removed) -/
+theorem no_crash_burst_nonrecursive_partial (fs0 : FS) (hwf : fs0.WF) (full : Bool) (pre burst : List Op)
+    (hv : allValid (Sys.start fs0 false full) pre = true) (hroot : Op.rmdir ["W"] ∉ pre)
+    (hb : allValidNoRoot ((Sys.start fs0 false full).run pre).1 burst = true) :
+    (((Sys.start fs0 false full).run pre).1.burst burst).1.crashed = false ∧
+    (((Sys.start fs0 false full).run pre).1.burst burst).1.stopped = false := by
+  obtain ⟨inv, hs, hc, _, _⟩ := start_flat fs0 hwf full
+  have hr := run_flat _ pre inv hs hc hv
+  have hst : ((Sys.start fs0 false full).run pre).1.stopped = false := by
+    cases h : ((Sys.start fs0 false full).run pre).1.stopped
+    · rfl
+    · exact absurd ((stopped_iff_flat _ pre inv hs hc hv).1 h) hroot
+  obtain ⟨fsN, kN, recs, libN, _, hrun, _⟩ := kernelOps_flat burst _ (hr.2.2 hst) hst hr.2.1 hb
+  rw [burst_flat _ burst (hr.2.2 hst) hst hr.2.1 hb, hrun]
+  exact ⟨hr.2.1, hst⟩
 
 /-- non-vacuity: the history that used to kill the reader thread (move a watched directory out, re-create
     and remove its name, remove the moved directory), then the root goes away -/
